@@ -99,7 +99,7 @@ def run(P: Program, R: Report, tier: str) -> None:
     loops = [x for x in ast.walk(f.node) if isinstance(x, ast.For)]
     cands = []
     for lp in loops:
-        before = {st.targets[0].id for st in f.node.body if isinstance(st, ast.Assign) and isinstance(st.targets[0], ast.Name) and st.lineno < lp.lineno and isinstance(st.value, ast.Constant)}
+        before = {st.targets[0].id for st in ast.walk(f.node) if isinstance(st, ast.Assign) and isinstance(st.targets[0], ast.Name) and st.lineno < lp.lineno and isinstance(st.value, ast.Constant)}
         for st in ast.walk(lp):
             tg = st.targets if isinstance(st, ast.Assign) else ([st.target] if isinstance(st, ast.AugAssign) else [])
             for t in tg:
@@ -113,6 +113,16 @@ def run(P: Program, R: Report, tier: str) -> None:
     if not cands:
         R.undecided("R19.1", f, f.node, "the running offset of ensure_unique_labels", "offset variable not recognised: not decided")
     reassign = [c_[2] for c_ in cands]
+    # the offset starts once: its constant initialisation is not inside a loop (one running offset for all frames AND hypotheses)
+    if cands:
+        v0 = cands[0][1]
+        inits = [st for st in ast.walk(f.node) if isinstance(st, ast.Assign) and isinstance(st.targets[0], ast.Name) and st.targets[0].id == v0 and isinstance(st.value, ast.Constant)]
+        for st in inits:
+            inside = [lp_ for lp_ in ast.walk(f.node) if isinstance(lp_, (ast.For, ast.While)) and any(x is st for x in ast.walk(lp_))]
+            R.check(not inside, "R19.1", f, st, f"the running offset `{v0}` is initialised once, outside every loop",
+                    f"`{norm(st)}` sits inside the loop over `{norm(inside[0].target) if inside and isinstance(inside[0], ast.For) else '?'}`: the offset restarts for each of its "
+                    "iterations, so labels are unique within one hypothesis but repeat between hypotheses", via="monotone-form")
+    reassign = [c_[2] for c_ in cands if not (isinstance(c_[2], ast.Assign) and isinstance(c_[2].value, ast.Constant))]
     v = cands[0][1] if cands else "?"
     lp = cands[0][0] if cands else None
     for s in reassign:
